@@ -50,6 +50,53 @@ func c06pair(c *core.Ctx) {
 				ok = true
 			}
 		}
+		// the same pairing without defer: after the guard a straight line of statements (no branch,
+		// no return) ends in `c.leave(x); return ...` - every non-panicking path leaves exactly once
+		if ok1 && !ok2 {
+			cond := core.ExprStr(ifs.Cond)
+			arg := ""
+			if strings.HasPrefix(cond, "!c.visit(") && strings.HasSuffix(cond, ")") {
+				arg = strings.TrimSuffix(strings.TrimPrefix(cond, "!c.visit("), ")")
+			}
+			ret := false
+			for _, s := range ifs.Body.List {
+				if _, isR := s.(*ast.ReturnStmt); isR {
+					ret = true
+				}
+			}
+			rest := d.Decl.Body.List[1:]
+			straight := arg != "" && ret && len(rest) >= 2
+			leaves := 0
+			for i, st := range rest {
+				switch x := st.(type) {
+				case *ast.AssignStmt, *ast.DeclStmt:
+				case *ast.ExprStmt:
+					if core.ExprStr(x.X) == "c.leave("+arg+")" {
+						leaves++
+						if i != len(rest)-2 {
+							straight = false
+						}
+					}
+				case *ast.ReturnStmt:
+					if i != len(rest)-1 {
+						straight = false
+					}
+				default:
+					straight = false
+				}
+				ast.Inspect(st, func(n ast.Node) bool {
+					if _, isLit := n.(*ast.FuncLit); isLit {
+						straight = false
+					}
+					return true
+				})
+			}
+			if straight && leaves == 1 {
+				if _, isRet := rest[len(rest)-1].(*ast.ReturnStmt); isRet {
+					ok = true
+				}
+			}
+		}
 	}
 	c.Check(ok, R, "checkType:visit-defer-leave", c.P.Pos(d.Decl.Pos()), "checkType: visit failure returns, success registers defer leave(same name) before recursing", why+": a type stays marked as visited after its subtree was checked, so a second, independent use of the same type is reported as infinite recursion (false alarm), or it is never unmarked on error paths")
 	// visit inserts, leave deletes the same key from the same map
@@ -121,7 +168,7 @@ func c06skip(c *core.Ctx) {
 				for nul := int64(0); nul <= 1; nul++ {
 					nCells++
 					cl := cl
-					e := &miniEval{pk: d.Pkg, env: map[string]int64{}}
+					e := &miniEval{pk: d.Pkg, env: map[string]int64{}, ctx: c, helpers: true}
 					e.dyn = func(x ast.Expr) string { return cl.kind }
 					e.rng = func(x ast.Expr) ([]int64, bool) {
 						if strings.HasSuffix(core.ExprStr(x), ".Children()") {
@@ -153,6 +200,12 @@ func c06skip(c *core.Ctx) {
 								return cl.mixedErr, true
 							case strings.HasSuffix(f, ".Children") && len(y.Args) == 0:
 								return int64(cl.children), true
+							}
+							// a helper of the package is evaluated in place, any other error-typed call is an error value
+							if fo, isF := core.Callee(d.Pkg, y).(*types.Func); isF && fo.Pkg() != nil && fo.Pkg().Path() == d.Pkg.PkgPath {
+								if hd := c.P.FindDecl(core.Rel(fo.FullName())); hd != nil && hd.Decl.Body != nil {
+									return 0, false
+								}
 							}
 							if t := core.TypeOf(d.Pkg, y); t != nil && core.IsErrorType(t) {
 								return 1, true
